@@ -110,7 +110,8 @@ CLAIMED = {
         'discard_exploration getter modify no field of the sampler, no bound sampling state and draw nothing from the generator (frame over all fields + ghost state; posterior(): C14, '
         'shell_association: C01); write() and write_shell_update() leave the sampler object untouched (they only talk to the file); NautilusPool.map returns the ordered-map primitive; '
         'syntactic obligations over the whole package AST: no global numpy.random, wall clock only in the run() timeout guard, estimators/generators explicitly seeded, every bound '
-        'constructor receives the shared generator, `if verbose:` blocks only print.',
+        'constructor receives the shared generator, `if verbose:` blocks only print; evaluate_likelihood (scalar, vectorised, pooled - every combination is one path of the same body) returns '
+        'the user likelihood / blob of every row of the batch and leaves the caller\'s batch untouched whatever the user transform does to the array it is handed, so the mode is invisible.',
    note=TRUST + 'h5py / pathlib objects are effect-free sinks (they hold no reference to the sampler); Pool.map / dask gather(map) ordered and BLAS/sklearn deterministic are assumed contracts '
         'of dependencies; print_status and shell_bound_occupation are outside the subset: bounded runtime interleaving check only. The composition to "bit-identical runs" is the '
         'determinism argument of DESIGN.md (not machine-checked).',
